@@ -185,6 +185,35 @@ func vprobePlaceholders() (email string, ip string) {
 	return
 }
 
+// vprobeNsFields finds, among candidate member names, those whose string value directly inside a command document is replaced under
+// --redactNamespaces (the list is written inside redactNamespace, not in a table): one probe line per candidate through RedactMongoLog.
+func vprobeNsFields(cands []string) []string {
+	out := []string{}
+	SetRedactNamespaces(true)
+	defer SetRedactNamespaces(false)
+	for _, k := range cands {
+		func() {
+			defer func() { _ = recover() }()
+			kb, err := json.Marshal(k)
+			if err != nil {
+				return
+			}
+			red, err := RedactMongoLog(`{"c":"COMMAND","attr":{"command":{` + string(kb) + `:"zzprobens"}}}`)
+			if err != nil {
+				return
+			}
+			b, err := MarshalOrdered(red)
+			if err != nil {
+				return
+			}
+			if !bytes.Contains(b, []byte(`"zzprobens"`)) {
+				out = append(out, k)
+			}
+		}()
+	}
+	return out
+}
+
 // vprobeGzipSuffixes finds, among candidate file-name endings, those for which ProcessMongoLogFile decompresses the file: a gzip payload is
 // written under each name and the output compared with the output for the plain text.
 func vprobeGzipSuffixes() []string {
@@ -576,6 +605,10 @@ func vserve(rq *vreq, out *bufio.Writer) {
 	case "dump":
 		keys := []string{}
 		probedEmail, probedIP := vprobePlaceholders()
+		nsCands := []string{}
+		for _, n := range rq.Names {
+			nsCands = append(nsCands, string(vb64(n)))
+		}
 		tables := map[string]any{
 			"Agg":       vdumpMeta(AggregationOperators),
 			"Core":      vdumpMeta(CoreOperators),
@@ -593,7 +626,7 @@ func vserve(rq *vreq, out *bufio.Writer) {
 			"otypes":    map[string]int{"Pipeline": int(Pipeline), "Exempt": int(Exempt), "Redactable": int(Redactable), "FieldName": int(FieldName), "OperatorArray": int(OperatorArray), "OperatorMap": int(OperatorMap), "Namespace": int(Namespace)},
 			"max_token": vprobeLineLimit(),
 			"gz_suffixes": vprobeGzipSuffixes(),
-			"probed":    map[string]any{"email_placeholder": probedEmail, "ip_placeholder": probedIP},
+			"probed":    map[string]any{"email_placeholder": probedEmail, "ip_placeholder": probedIP, "ns_fields": vprobeNsFields(nsCands)},
 			"consts": map[string]any{
 				"RedactedISODate": RedactedISODate, "RedactedString": RedactedString, "RedactedNumber": RedactedNumber,
 				"RedactedBoolean": RedactedBoolean, "RedactedObjectId": RedactedObjectId, "RedactedUUID": RedactedUUID,
